@@ -292,7 +292,7 @@ def run(tier, seed):
             rep.violation({"kind": "prelude-does-not-run", "msg": p.stderr.strip()[:600]})
             return rep.finish()
         raise nv.ToolError("harness nv-eval failed (%d):\n%s" % (p.returncode, p.stderr[-4000:]))
-    results = nv.read_ndjson_text(open(out).read())
+    results = nv.read_ndjson_text(open(out, encoding="utf-8").read())
     kinds = {}
     for c, r in zip(cases, results):
         rep.add("evaluations", 1)
